@@ -579,7 +579,7 @@ func c16Churn(rng *rand.Rand, n int) []c16Case {
 
 // C16 — closing one end of a bridged TCP connection closes the other.
 func C16(r *core.Run) {
-	r.SetRule("harness TCP client -> real tcp-bridge-frontend -> real tcp-bridge-backend -> harness TCP server; per connection one peer closes first ({client, server} x {never used, idle after an exchange, its own data in flight, the other peer's data in flight, both} x sizes; full close, CloseWrite followed by close, abortive close (SetLinger(0) or Close with unread data), 4-16 MiB bursts closed at once towards a slow-reading peer, and a 32 MiB burst closed at once towards a peer that reads nothing for 14 s); 100 (thorough 500) short connections strictly one after the other through the same processes; 3000 (thorough 24000) rounds in which both peers of a connection close at nearly the same instant, then a liveness probe; three connections whose frontend->backend websocket handshake is held up for 7 s by a relay while the client writes and closes; websocket handshakes on the streaming path that the backend refuses (extensions offered, bad version, no key, foreign origin, POST) must leave no connection to the TCP server; the other peer must read end-of-stream within T=10s of (close, last byte of the data sent before the close); with both peers gone each bridge process' socket count (/proc/<pid>/fd) must be back at its idle baseline within T; a missed bound is re-run alone on a fresh pair of bridge processes before it is reported; class = (phase, who closes first, close kind, what is in flight, sizes)")
+	r.SetRule("harness TCP client -> real tcp-bridge-frontend -> real tcp-bridge-backend -> harness TCP server; per connection one peer closes first ({client, server} x {never used, idle after an exchange, its own data in flight, the other peer's data in flight, both} x sizes; full close, CloseWrite followed by close, abortive close (SetLinger(0) or Close with unread data), 4-16 MiB bursts closed at once towards a slow-reading peer, and a 32 MiB burst closed at once towards a peer that reads nothing for 14 s); 100 (thorough 500) short connections strictly one after the other through the same processes; 3000 (thorough 24000) rounds in which both peers of a connection close at nearly the same instant, then a liveness probe; thorough only (the quick tier cannot reach a five-minute default): one connection per direction carrying 7 bytes every 4 s one way for 320 s with the other direction silent, then a real close - every byte, then end-of-stream, and not before; three connections whose frontend->backend websocket handshake is held up for 7 s by a relay while the client writes and closes; websocket handshakes on the streaming path that the backend refuses (extensions offered, bad version, no key, foreign origin, POST) must leave no connection to the TCP server; the other peer must read end-of-stream within T=10s of (close, last byte of the data sent before the close); with both peers gone each bridge process' socket count (/proc/<pid>/fd) must be back at its idle baseline within T; a missed bound is re-run alone on a fresh pair of bridge processes before it is reported; class = (phase, who closes first, close kind, what is in flight, sizes)")
 	r.Assume("a half close (CloseWrite) is only observed; the verdict is taken after the same peer has fully closed")
 	r.Assume("completeness of the data sent before the close is judged only for a graceful close by a peer that had nothing unread (never used / idle / own data in flight, including the slow-reader bursts); for abortive closes only the propagation of the close and the release of the sockets are judged: closing a TCP socket with unread data resets the connection and may discard the closer's own data even without a bridge")
 	bins := bridgeBuild(r)
@@ -630,6 +630,12 @@ func C16(r *core.Run) {
 		leaked bool
 		detail map[string]interface{}
 		err    error
+	}
+	// thorough only: one-way trickles that outlast five minutes, on processes of their own
+	var owDone chan []c16OneWayResult
+	if !r.Quick() {
+		owDone = make(chan []c16OneWayResult, 1)
+		go func() { owDone <- c16OneWay(r, bins, "-oneway0") }()
 	}
 	shDone := make(chan shRes, 1)
 	go func() {
@@ -929,6 +935,44 @@ func C16(r *core.Run) {
 			}
 			if leaked {
 				r.Violate("C16:sockets-leaked:server-unreachable", fmt.Sprintf("connections to an unreachable TCP server are not released after the clients left: %v", detail), nil, detail)
+			}
+		}
+	}
+
+	// ---- thorough: one-way trickles of 320 s
+	if owDone != nil {
+		var ows []c16OneWayResult
+		select {
+		case ows = <-owDone:
+		case <-time.After(8 * time.Minute):
+			r.Inconclusive("one-way trickle connections: the harness did not finish them within its watchdog")
+		}
+		for _, ow := range ows {
+			r.Case(ow.Class)
+			r.Add("one_way_trickle_bytes_delivered", int(ow.Recv))
+			who := map[string]string{"c2s": "client", "s2c": "server"}[ow.Dir]
+			switch {
+			case ow.Harness != "":
+				r.Inconclusive("one-way trickle " + ow.Dir + ": " + ow.Harness)
+			case ow.Early != "":
+				// a safety observation, no clock decides it: the stream ended although the writer had not closed
+				r.Violate("C16:data-before-close-lost:"+who+"-closes-first", fmt.Sprintf("%s: %d s into a one-way stream (%d bytes every %d s, the other direction silent, nobody had closed) %s; the writer had written %d bytes, the reader had received %d; the writer closed only afterwards",
+					ow.Class, ow.EarlyAtS, c16OneWayChunk, c16OneWayEveryS, ow.Early, ow.Sent, ow.Recv), nil, ow)
+			case ow.Missed:
+				again := c16OneWay(r, bins, "-oneway1")
+				rep := false
+				for _, a := range again {
+					rep = rep || (a.Dir == ow.Dir && a.Missed)
+				}
+				if rep {
+					r.Violate("C16:eof-not-propagated:"+who+"-closes-first", fmt.Sprintf("%s: the writer closed after %d s of trickling %d bytes; the reader received %d and saw no end-of-stream for %s (repeated alone on fresh processes)", ow.Class, ow.Seconds, ow.Sent, ow.Recv, c16Bound), nil, ow)
+				} else {
+					r.Inconclusive(ow.Class + ": no end-of-stream within the bound after the close, not reproduced when repeated")
+				}
+			case ow.Recv != ow.Sent || ow.Altered:
+				r.Violate("C16:data-before-close-lost:"+who+"-closes-first", fmt.Sprintf("%s: the reader's stream ended (%s) after %d of the %d bytes written before the close (altered=%v)", ow.Class, ow.EOS, ow.Recv, ow.Sent, ow.Altered), nil, ow)
+			default:
+				r.Sample(ow)
 			}
 		}
 	}
@@ -1529,4 +1573,124 @@ func c16SlowHandshake(r *core.Run, bins bridgeBins, suffix string, count bool) (
 	}
 	judgeProcs(r, true, front, back)
 	return held, leaked, detail, nil
+}
+
+const (
+	c16OneWayChunk  = 7
+	c16OneWayEveryS = 4
+	c16OneWayTicks  = 80 // 320 s
+)
+
+type c16OneWayResult struct {
+	Dir      string `json:"direction"`
+	Class    string `json:"class"`
+	Sent     int64  `json:"bytes_written_before_close"`
+	Recv     int64  `json:"bytes_received"`
+	Seconds  int    `json:"seconds_streamed"`
+	Early    string `json:"ended_before_the_close,omitempty"`
+	EarlyAtS int    `json:"ended_at_second,omitempty"`
+	EOS      string `json:"end_of_stream_after_close"`
+	Missed   bool   `json:"missed_bound"`
+	Altered  bool   `json:"altered,omitempty"`
+	MaxGapMs int64  `json:"longest_pause_between_writes_ms"`
+	Harness  string `json:"harness_problem,omitempty"`
+}
+
+// c16OneWay: on a fresh pair of bridge processes, one connection per direction on which one peer
+// writes a few bytes every few seconds for 320 s while the other peer never writes; then the
+// writer closes. The reader must not see the stream end before that, and must then have every
+// byte followed by end-of-stream within the bound.
+func c16OneWay(r *core.Run, bins bridgeBins, suffix string) []c16OneWayResult {
+	e, err := c16NewEngine(r, bins, suffix)
+	if err != nil {
+		return []c16OneWayResult{{Dir: "c2s", Class: "one-way-trickle", Harness: err.Error()}}
+	}
+	defer e.close()
+	out := make([]c16OneWayResult, 2)
+	var wg sync.WaitGroup
+	for k, dir := range []string{"c2s", "s2c"} {
+		wg.Add(1)
+		go func(k int, dir string) {
+			defer wg.Done()
+			res := &out[k]
+			res.Dir = dir
+			res.Class = fmt.Sprintf("one-way-trickle|%s|%dB/%ds|%ds|other-direction-silent", dir, c16OneWayChunk, c16OneWayEveryS, c16OneWayTicks*c16OneWayEveryS)
+			cli, srv, err := e.connect()
+			if err != nil {
+				res.Harness = err.Error()
+				return
+			}
+			x, y := cli, srv
+			if dir == "s2c" {
+				x, y = srv, cli
+			}
+			total := int64(c16OneWayTicks * c16OneWayChunk)
+			id := 7000000 + k
+			py := c16NewPeer(y, bridgeNewStream(r.Seed, id, 'x', total), true, false, 0)
+			px := c16NewPeer(x, bridgeNewStream(r.Seed, id, 'y', 0), true, false, 0)
+			defer func() {
+				px.stop.Store(true)
+				py.stop.Store(true)
+				x.Close()
+				y.Close()
+				<-px.done
+				<-py.done
+			}()
+			xs := bridgeNewStream(r.Seed, id, 'x', total)
+			buf := make([]byte, c16OneWayChunk)
+			t0 := time.Now()
+			last := t0
+			for tick := 0; tick < c16OneWayTicks; tick++ {
+				if _, _, eos, _ := py.state(); eos != "" {
+					res.Early = "the reader saw its stream end (" + eos + ")"
+				} else if _, _, eos, _ := px.state(); eos != "" {
+					res.Early = "the writer's own connection was ended (" + eos + ")"
+				}
+				if res.Early == "" {
+					xs.Next(buf)
+					x.SetWriteDeadline(time.Now().Add(c16Bound))
+					n, err := x.Write(buf)
+					res.Sent += int64(n)
+					if gap := time.Since(last).Milliseconds(); gap > res.MaxGapMs {
+						res.MaxGapMs = gap
+					}
+					last = time.Now()
+					if err != nil {
+						res.Early = "the writer's write failed: " + err.Error()
+					}
+				}
+				if res.Early != "" {
+					res.EarlyAtS = int(time.Since(t0).Seconds())
+					break
+				}
+				time.Sleep(time.Until(t0.Add(time.Duration(tick+1) * c16OneWayEveryS * time.Second)))
+			}
+			res.Seconds = int(time.Since(t0).Seconds())
+			// the real close
+			px.stop.Store(true)
+			tClose := time.Now()
+			x.Close()
+			for {
+				recv, lastB, eos, _ := py.state()
+				res.Recv = recv
+				base := tClose
+				if lastB.After(base) {
+					base = lastB
+				}
+				if eos != "" {
+					res.EOS = eos
+					break
+				}
+				if time.Since(base) > c16Bound {
+					res.Missed = true
+					break
+				}
+				time.Sleep(5 * time.Millisecond)
+			}
+			res.Altered = py.v.BadOffset >= 0
+		}(k, dir)
+	}
+	wg.Wait()
+	judgeProcs(r, true, e.topo.Front, e.topo.Back)
+	return out
 }
